@@ -50,6 +50,7 @@ type StoreCase struct {
 }
 
 type poolEntry struct {
+	style   int
 	tok     *delegation.Token
 	data    []byte
 	id      cid.Cid
@@ -64,8 +65,11 @@ type storeLoader struct {
 
 func (l *storeLoader) GetDelegation(c cid.Cid) (*delegation.Token, error) {
 	e, ok := l.m[c]
-	if !ok || !e.present {
+	if !ok {
 		return nil, delegation.ErrDelegationNotFound
+	}
+	if !e.present {
+		return miss(e.style)
 	}
 	if e.failing {
 		return nil, fmt.Errorf("verif: injected loader failure")
@@ -148,6 +152,7 @@ func RunStore(c *h.Ctx, sc StoreCase, owner string) {
 		switch op.Kind {
 		case "remove":
 			pool[op.I%len(pool)].present = false
+			pool[op.I%len(pool)].style = (op.I / len(pool)) % 4
 			changes++
 			changedSinceCheck = true
 		case "restore":
@@ -388,6 +393,7 @@ func DrawStore(t *rapid.T, focus string) StoreCase {
 		}
 		si := StoreInv{Inv: cs.Inv}
 		si.Inv.Hook = nil
+		_ = si
 		for _, l := range cs.Links {
 			si.Proof = append(si.Proof, add(l))
 		}
@@ -428,7 +434,7 @@ func DrawStore(t *rapid.T, focus string) StoreCase {
 	kinds := []string{"check", "check", "check", "check", "check", "check-hook", "remove", "remove", "restore", "restore", "fail", "unfail", "reseal-inv", "reseal-dlg"}
 	for i := 0; i < nops; i++ {
 		k := rapid.SampledFrom(kinds).Draw(t, "op")
-		sc.Ops = append(sc.Ops, StoreOp{Kind: k, I: rapid.IntRange(0, 23).Draw(t, "opi")})
+		sc.Ops = append(sc.Ops, StoreOp{Kind: k, I: rapid.IntRange(0, 95).Draw(t, "opi")})
 	}
 	sc.Ops = append(sc.Ops, StoreOp{Kind: "check", I: rapid.IntRange(0, 23).Draw(t, "lastcheck")})
 	return sc
